@@ -1,9 +1,10 @@
 #!/bin/sh
-# usage: tools/eval_batch.sh C19 [also-props]   evaluates /tmp/seed-<P>/seed1,2 and keeps them under seeded/
-P=$1; ALSO=$2
+# usage: tools/eval_batch.sh C19 [also-props] [round]   evaluates /tmp/seed<round>-<P>/seed1,2 and keeps them under seeded/
+P=$1; ALSO=$2; R=$3
 for n in 1 2; do
-  [ -f /tmp/seed-$P/seed$n/patch.diff ] || continue
-  /verif/tools/eval_seed.py /tmp/seed-$P/seed$n $P ${ALSO:+--also $ALSO} --keep-as $P-seed$n 2>&1 | /venv/bin/python -c "
+  D=/tmp/seed$R-$P/seed$n
+  [ -f $D/patch.diff ] || continue
+  /verif/tools/eval_seed.py $D $P ${ALSO:+--also $ALSO} --keep-as $P${R:+-r$R}-seed$n 2>&1 | /venv/bin/python -c "
 import sys,json
 d=json.load(sys.stdin)
 print(d['dir'], 'confirmed=',d.get('confirmed'), 'tests=',d.get('tests_pass'), 'demo', d.get('demo_with_change_rc'), d.get('demo_clean_rc'), d.get('patch_error',''))
